@@ -1,10 +1,11 @@
 """BER encoding variants of a DER encoding (property C03): a generic TLV walker/serialiser with
 explicit length forms, indefinite lengths, constructed strings, SET permutations, BOOLEAN TRUE forms."""
 
-# constructed encodings are generated for OCTET STRING and BIT STRING only: for restricted character strings,
-# time types and implicitly tagged strings asn1c demands that the segments repeat the outer tag instead of
-# being universal OCTET STRINGs (X.690 8.7.3.2 / 8.23.6): known finding F58
-STRING_UNIV = {3, 4}
+# universal tags whose primitive encodings may be replaced by constructed ones (X.690 8.6.4, 8.7.3, 8.23.6: BIT STRING,
+# OCTET STRING, the restricted character strings and the time types); the segments of BIT STRING are BIT STRINGs, those of
+# every other type are universal OCTET STRINGs (tag 04) whatever tag the string itself carries (former finding F58).
+# Strings under an IMPLICIT tag cannot be recognised in a TLV tree: `string_variants` handles them, given the chain length.
+STRING_UNIV = {3, 4, 12, 18, 19, 20, 21, 22, 23, 24, 25, 26, 27, 28, 30}
 
 class Node:
     __slots__ = ("cls", "num", "cons", "content", "kids", "form")
@@ -74,10 +75,10 @@ def set_forms(nodes, choose):
         else:
             n.form = choose(n, allow_indef=False)
 
-def split_string(n, rng, depth=1):
+def split_string(n, rng, depth=1, is_bits=None):
     """primitive string node -> constructed with segments (X.690 8.7.3 / 8.6.4); in place"""
     c = n.content
-    is_bits = n.num == 3 and n.cls == 0
+    if is_bits is None: is_bits = n.num == 3 and n.cls == 0
     if is_bits:
         unused, data = (c[0], c[1:]) if c else (0, b"")
         cuts = sorted({rng.randrange(0, len(data) + 1) for _ in range(rng.randrange(1, 4))} | {0, len(data)})
@@ -135,4 +136,22 @@ def variants(der, rng, count, strings=True):
             if n.cons and n.cls == 0 and n.num == 17 and len(n.kids) > 1 and rng.random() < 0.5: rng.shuffle(n.kids)
         set_forms(t, lambda n, allow_indef: rng.choice([0, 0, 1, 2, -1] if allow_indef else [0, 0, 1, 2]))
         out.append((f"mix{i}", b"".join(map(ser, t))))
+    return out
+
+def string_variants(der, chain, is_bits, rng):
+    """constructed variants of the DER encoding of ONE string value whose tag chain has `chain` tags (explicit wrappers
+    included; the last one may be an IMPLICIT tag, which a TLV tree cannot tell from any other primitive type):
+    segments at depth 1 and 2, definite and indefinite lengths"""
+    out = []
+    for depth in (1, 2):
+        for form in (0, -1, 2):
+            t = parse(der)
+            n = t[0]
+            for _ in range(chain - 1):
+                if not (n.cons and len(n.kids) == 1): return out
+                n = n.kids[0]
+            if n.cons: return out
+            split_string(n, rng, depth, is_bits=is_bits)
+            set_forms(t, lambda n, allow_indef: (form if (form != -1 or allow_indef) else 0))
+            out.append((f"constructed-tagged-{depth}-{'indef' if form == -1 else 'def' if form == 0 else 'long'}", b"".join(map(ser, t))))
     return out
